@@ -427,7 +427,7 @@ def gen_derive(rng, w, t):
     m, n = X.size
     tc = X.typecode
     kind = rng.choice(['T', 'H', 'real', 'imag', 'abs', 'neg', 'pos', 'add', 'sub', 'mul', 'smul', 'sdiv', 'get1', 'get2', 'get2',
-                       'sparse', 'spdiag', 'addnum', 'copy', 'dup', 'emul', 'blocks', 'sum'])
+                       'sparse', 'spdiag', 'addnum', 'copy', 'dup', 'emul', 'blocks', 'sum', 'attrs', 'attrs'])
     nm = w.fresh()
     if kind == 'dup':
         # triplets with repeated positions: the values are added
@@ -848,6 +848,35 @@ def apply(op, w, stats):
                 for i, j, v in zip(spec['I'], spec['J'], spec['V']):
                     R[i, j] += num(v)
                 return R
+        elif dk == 'attrs':
+            # the read-only views of one object must agree with each other and with the dense image:
+            # len() = number of stored entries, I/J/V = the triplets in column-major order, iteration = V,
+            # bool() = "not a zero matrix", max()/min() over the stored entries, `in` over the stored values
+            import cvxopt
+            I, J, Vv = list(X.I), list(X.J), list(X.V)
+            if not (len(X) == len(I) == len(J) == len(Vv)):
+                raise Mismatch('attributes-inconsistent', 'len()=%d, len(I)=%d, len(J)=%d, len(V)=%d' % (len(X), len(I), len(J), len(Vv)), op='derive.attrs')
+            if sorted(zip(J, I)) != list(zip(J, I)) or len(set(zip(J, I))) != len(I):
+                raise Mismatch('attributes-inconsistent', 'I, J are not in strict column-major order', op='derive.attrs')
+            for i_, j_, v_ in zip(I, J, Vv):
+                if D[i_, j_] != v_:
+                    raise Mismatch('attributes-inconsistent', 'V entry for (%d,%d) is %r, the matrix has %r there' % (i_, j_, v_, D[i_, j_]), op='derive.attrs')
+            if list(X) != Vv:
+                raise Mismatch('attributes-inconsistent', 'iteration yields %r, V is %r' % (list(X)[:6], Vv[:6]), op='derive.attrs')
+            if bool(X) != any(v != 0 for v in D):
+                raise Mismatch('attributes-inconsistent', 'bool() = %r for a matrix that is %sa zero matrix' % (bool(X), '' if not any(v != 0 for v in D) else 'not '), op='derive.attrs')
+            if X.typecode == 'd' and Vv:
+                # Python's max()/min() run over the stored entries, cvxopt.max()/min() over the whole (dense) matrix
+                import builtins
+                if builtins.max(X) != builtins.max(Vv) or builtins.min(X) != builtins.min(Vv):
+                    raise Mismatch('attributes-inconsistent', 'builtin max/min over the matrix differ from those over V', op='derive.attrs')
+                if cvxopt.max(X) != builtins.max(D) or cvxopt.min(X) != builtins.min(D):
+                    raise Mismatch('attributes-inconsistent', 'cvxopt.max/min = %r/%r, the dense image has %r/%r' %
+                                   (cvxopt.max(X), cvxopt.min(X), builtins.max(D), builtins.min(D)), op='derive.attrs')
+            probe = Vv[0] if Vv else 7.0
+            if (probe in X) != (probe in Vv) or (99.0 in X):
+                raise Mismatch('attributes-inconsistent', "'in' disagrees with the stored values", op='derive.attrs')
+            return
         elif dk == 'sum':
             fs, fd = (lambda: sum(X)), (lambda: sum(D))
             expect_sparse = False
